@@ -163,14 +163,45 @@ def draw_target(draw, model, allow_unknown=True, prefer=None):
     return draw(st.sampled_from(names)), "by_name"
 
 
+def mux_targeted_op(draw, model, counter):
+    """An edit aimed at an input of the PMux: delete it keeping / with its children, rename
+    it, change the rail it carries, or replace it by another kind."""
+    nm = S.node_map(model)
+    mux = [n for n in model["nodes"] if n["kind"] == "PMux"][0]
+    target = draw(st.sampled_from(mux["parents"]))
+    node = nm[target]
+    what = draw(st.sampled_from(["del_keep", "del_keep", "del_all", "rename", "rename",
+                                 "rail", "other_kind"]))
+    if what == "del_keep":
+        return {"op": "del_comp", "target": target, "del_childs": False,
+                "cls": ["target_by_name", "mux_input"]}
+    if what == "del_all":
+        return {"op": "del_comp", "target": target, "del_childs": True,
+                "cls": ["target_by_name", "mux_input"]}
+    kind = node["kind"]
+    if what == "other_kind":
+        kind = draw(st.sampled_from(["RLoss", "PSwitch", "LinReg", "VLoss", "Source"]))
+    name = node["name"] if what == "rail" else fresh_name(draw, model, counter)
+    rail = "rail{}".format(counter) if (what != "rename" or node["rail"]) else ""
+    params = copy.deepcopy(node["params"]) if kind == node["kind"] else draw_params(draw, kind)
+    return {"op": "change_comp", "target": target,
+            "comp": {"name": name, "kind": kind, "params": params,
+                     "limits": copy.deepcopy(node.get("limits"))},
+            "group": node["group"], "rail": rail,
+            "cls": ["target_by_name", "mux_input", "renamed" if name != target
+                    else "name_unchanged", "kind_" + kind]}
+
+
 def draw_op(draw, model, counter):
     nm = S.node_map(model)
     names = list(nm)
     kind_of = {n["name"]: n["kind"] for n in model["nodes"]}
     has_mux = any(k == "PMux" for k in kind_of.values())
+    if has_mux and draw(st.integers(0, 6)) == 3:
+        return mux_targeted_op(draw, model, counter)
     which = draw(st.sampled_from(
         ["add_comp"] * 6 + ["add_source"] * 2 + ["change_comp"] * 4 + ["del_comp"] * 3
-        + ["set_sys_phases"] + ["set_comp_phases"] * 2))
+        + ["set_sys_phases"] * 2 + ["set_comp_phases"] * 2))
     if which == "add_source":
         r = draw(st.integers(0, 9))
         kind = "Source" if r else draw(st.sampled_from(["PLoad", "RLoss"]))
@@ -251,7 +282,10 @@ def draw_op(draw, model, counter):
         if r == 0:
             ph, c = {"only": 1.0}, "one_phase"
         elif r == 1:
-            ph, c = {"N/A": 1.0, "b": 2.0}, "reserved_name"
+            # the reserved name at a drawn position among valid phases
+            items = [(PHASES[i], 1.0 + i) for i in range(draw(st.integers(1, 3)))]
+            items.insert(draw(st.integers(0, len(items))), ("N/A", 1.0))
+            ph, c = dict(items), "reserved_name"
         elif r == 2:
             ph, c = {}, "reset"
         else:
@@ -1131,6 +1165,11 @@ def make_machine(focus, tier, c16_every=1):
                     raise
                 if r == "abort":
                     self.dead = True
+
+            @precondition(lambda self: self.dead)
+            @rule()
+            def idle(self):
+                """the history was aborted (model and system out of step): nothing to do"""
 
             def teardown(self):
                 if self.d.sys is not None and not getattr(self, "failed", False):
